@@ -354,9 +354,24 @@ where
                         position: self.bytes_written,
                     })
             }
-            _ => self.text.encode(text).context(EncodeTextSnafu {
-                position: self.bytes_written,
-            }),
+            _ => {
+                let mut encoded = self.text.encode(text).context(EncodeTextSnafu {
+                    position: self.bytes_written,
+                })?;
+                // ISO 2022 code extensions: the default character set
+                // must be active again at the end of the value,
+                // otherwise the padding and delimiters which follow
+                // would be taken for part of a multi-byte character
+                if self.text.name() == "ISO_IR 87" {
+                    const TO_ASCII: &[u8] = b"\x1b(B";
+                    if let Some(pos) = encoded.iter().rposition(|b| *b == 0x1b) {
+                        if !encoded[pos..].starts_with(TO_ASCII) {
+                            encoded.extend_from_slice(TO_ASCII);
+                        }
+                    }
+                }
+                Ok(encoded)
+            }
         }
     }
 
